@@ -1,6 +1,7 @@
 """Checks that drive the real binary: C13 (time budget), C14 (session protocol), C19 (reproducibility)."""
 import os
 import subprocess
+import re
 import time
 from collections import Counter
 
@@ -247,6 +248,12 @@ def run_session(script, env=None, final_timeout=15.0):
         for l in got:
             if l.startswith("bestmove none"):
                 problems.append(f"bestmove none after `{cmd}`")
+    for l in e.log:
+        # an answer of one thread inside a line of another (`info pv readyok`)
+        if l.startswith("< ") and re.search(r"\S.*\b(readyok|bestmove|info depth|info score|info nodes|info time|info pv)\b", l[2:]) \
+                and not l[2:].startswith(("id ", "option ")):
+            problems.append(f"output lines interleaved: `{l[2:][:80]}`")
+            break
     return {"answers": answers, "rc": rc, "err": err, "problems": problems, "accepted": accepted, "refused": refused,
             "bestmoves": best, "log": e.log}
 
@@ -264,6 +271,10 @@ ADVERSARIAL = [
     ("search thread starts late, next position is invalid", {"RUSTYBAIT_VERIF_SEARCH_THREAD_START_MS": 300},
      [("position startpos", 0, None), ("go movetime 1", 0, None), ("position fen 8/8/8/8/8/8/8/8 w - -", 30, None),
       ("isready", 700, None), ("position startpos", 0, None), ("go depth 1", 0, "bestmove")]),
+    ("isready answered while the principal variation is being written", {"RUSTYBAIT_VERIF_PV_WALK_MS": 40},
+     [("position startpos", 0, None), ("go depth 3", 0, None), ("isready", 20, None), ("isready", 25, None), ("isready", 45, None),
+      ("isready", 30, None), ("isready", 35, None), ("isready", 50, None), ("wait", 0, None), ("position startpos", 0, None),
+      ("go depth 1", 0, "bestmove")]),
     ("timer wake-up stretched", {"RUSTYBAIT_VERIF_TIMER_WAKEUP_MS": 200},
      [("position startpos", 0, None), ("go movetime 20", 0, "bestmove"), ("position startpos", 0, None), ("go movetime 20", 0, "bestmove")]),
     ("ucinewgame and isready while searching", {},
